@@ -625,3 +625,7 @@ Proof.
   rewrite <- !app_assoc. reflexivity.
 Qed.
 Print Assumptions gen_bitfield_hash_eq.
+
+Theorem gen_bitvector_default_eq n : Gen.bitvector_default n = Gen.bitvector_new n.
+Proof. reflexivity. Qed.
+Print Assumptions gen_bitvector_default_eq.
